@@ -66,6 +66,7 @@ class NonPickler(Pickler):
 
 
 class JsonPickler(Pickler):
+    UnpicklingError = (ValueError, TypeError)  # json.JSONDecodeError and UnicodeDecodeError are ValueError
     json_serial = None
 
     @staticmethod
